@@ -29,6 +29,9 @@ FLAVOURS = {
     "latesigs": ["-latesigs", "-advsigs", "-badgercache", "100", "-minn", "2"],
     # a minority silent for good, node 0 on an InmemStore with cache 200, > 200 more events, then the fair suffix
     "longsilent": ["-live", "30", "-tail", "0", "-inmemcache0", "200", "-longsilent", "260", "-minn", "4"],
+    # one validator lags from the start, wakes up before the fair suffix, receives a truncated sync (so it holds loaded
+    # events it has not committed) and fast-forwards from a peer's anchor; then the fair suffix
+    "relag": ["-live", "30", "-tail", "0", "-relag", "-minn", "4"],
 }
 
 # per flavour: (shards, histories per shard, max validators, steps) for the quick and the thorough tier
@@ -40,6 +43,7 @@ SIZES = {
     "stall": ((6, 1, 5, 100), (16, 3, 7, 100)),
     "stallmem": ((8, 1, 7, 100), (16, 4, 9, 100)),
     "latesigs": ((3, 1, 2, 100), (16, 2, 2, 100)),
+    "relag": ((8, 2, 7, 150), (16, 8, 9, 300)),
     "longsilent": ((8, 1, 4, 100), (16, 4, 4, 100)),   # cache 200 on node 0 is calibrated for at most 4 validators (with more, the node falls below its supported cache window and stalls everybody when the live validators are exactly a supermajority)
 }
 
